@@ -234,8 +234,15 @@ def rules(rep, facts):
     rep.relabel('C12/R3b', 'C04/R2', 'guards behind the allowlist: ')
     r4_rendering(rep, facts)
     rep.relabel('C15/R4', 'C04/R2')
+    from .rules_c14 import r1_provenance
+    r1_provenance(rep, facts)
+    rep.relabel('C14/R1', 'C04/R2')
+    if 'toml_datetime' in facts.crates:
+        from .rules_c12 import r7_shapes
+        r7_shapes(rep, facts, rid='C12/R7')
+        rep.relabel('C12/R7', 'C04/R2')
     rep.rules['C04/R2']['floor'] = 6
-    rep.notes.append('R2 (guard structure behind allowlist reasons) is discharged by C15/R4 (rendering clamps), C02/R5 (SCALE.get / truncation), C12/R3b + C11/R3 (ASCII digits before `as u8 - b\'0\'`), C01/R3 (separated(1..) behind "at least one key").')
+    rep.notes.append('R2 (guard structure behind allowlist reasons) is discharged by C15/R4 (rendering clamps), C12/R7 (no constructor builds a date-time shape for which Datetime::type_name is `unreachable!`), C14/R1 (every span is start <= end by construction: `span.end - span.start` when an error is rendered), C02/R5 (SCALE.get / truncation), C12/R3b + C11/R3 (ASCII digits before `as u8 - b\'0\'`), C01/R3 (separated(1..) behind "at least one key").')
 
 
 def run(tier):
